@@ -213,6 +213,18 @@ def wide_rule_cases(lo, hi):
                            'pos': pos, 'tokens': as_tokens}
 
 
+def empty_element_cases(lo, hi):
+    """Unlisted siblings that are PTB empty elements (-NONE-, *T*-1, *) to the left and right of the listed child."""
+    for preset, parent, child, listed in rule_items()[lo:hi]:
+        for fillers in (['-NONE-', '-NONE-'], ['*T*-1', '*'], ['-NONE-', '*T*']):
+            for pos in (0, 1, 2):
+                for as_tokens in (True, False):
+                    labs = list(fillers)
+                    labs.insert(pos, child.upper())
+                    yield {'preset': preset, 'parent': parent.upper() if parent != '-' else parent, 'children': labs,
+                           'pos': pos, 'tokens': as_tokens}
+
+
 def anyparent_cases(maxlen):
     """Every parent category of both pinned tables (incl. those with an empty priority list) and an unknown
     one, over children none of which is listed: the rule does not say which child is the head, but exactly
@@ -322,7 +334,7 @@ def run_chunk(chunk):
         if chunk['kind'] == 'negra':
             for sh, k in sweep.iter_shapes(chunk):
                 for mt in edge_assignments(sh):
-                    vs, nontriv = check_negra(mt.to_json(), (None, 'rev', 'export')[res.evals % 3])
+                    vs, nontriv = check_negra(mt.to_json(), (None, 'rev', 'export', 'written')[res.evals % 4])
                     res.evals += 1
                     res.nontrivial += 1 if nontriv else 0
                     res.outcome((model.mt_str(mt.root, mt.toks), len(vs)))
@@ -331,7 +343,8 @@ def run_chunk(chunk):
                 res.sample({'negra_mark_heads_on': model.mt_str(mt.root, mt.toks)})
         elif chunk['kind'] == 'rules':
             c = None
-            for c in itertools.chain(rule_cases(chunk['lo'], chunk['hi'], chunk['maxlen']), wide_rule_cases(chunk['lo'], chunk['hi'])):
+            for c in itertools.chain(rule_cases(chunk['lo'], chunk['hi'], chunk['maxlen']), wide_rule_cases(chunk['lo'], chunk['hi']),
+                                     empty_element_cases(chunk['lo'], chunk['hi'])):
                 vs = check_rule(c)
                 res.evals += 1
                 res.nontrivial += 1 if c['pos'] != 0 else 0
